@@ -38,6 +38,10 @@ TOKENS = ["if", "else", "while", "for", "yield", "into", "switch", "case", "null
           "+", "-", "x", "f", "1", "1.5", '"s"', 'B"b"', 'F"{x}"', "2i"]
 CHARS = list("019.erxqif_'\"\\#(){}FRBu ")
 FCHARS = list("{}#x09<a+")
+# characters of every Unicode class the lexer can meet at token start: letters, decimal digits of other scripts, other numerics
+# (superscript, fraction, fullwidth, roman, circled), spaces that are not ASCII, zero-width and bidi marks, a combining mark,
+# case-folding oddities, an astral character, a private-use and a non-character code point
+UCHARS = list("é٣१²½１Ⅷ①\u00a0\u2003\u200b\u200f\ufeff\u0301ßİ😀\ue000\uffff\u2028λ")
 
 
 def corpus():
@@ -140,6 +144,17 @@ def cases(tier, shard, nshards):
             pre = "".join(t)
             for c in CHARS:
                 yield P(pre + c, "chars")
+    # (b2) strings over the Unicode characters mixed with the ASCII ones that start / continue tokens
+    mix = UCHARS + list("0x.e(\"'_ #")
+    L2 = 3 if tier == "quick" else 4
+    for n in range(1, L2 + 1):
+        for t in itertools.product(mix, repeat=n - 1):
+            if not mine():
+                continue
+            pre = "".join(t)
+            for c in mix:
+                if any(ch in UCHARS for ch in pre + c):
+                    yield P(pre + c, "unicode-chars")
     # (c) corpus mutations
     for prog in corpus():
         toks = tokenize(prog)
@@ -173,7 +188,7 @@ def cases(tier, shard, nshards):
     #     lexer (radix prefix, q/f/i/j/e suffixes, '.', identifiers glued to numbers) with digit prefixes that do not fit u8/u32/u64/i64/u128
     runs = [0, 1, 2, 9, 10, 36, 37, 63, 64, 65, 99, 255, 256, 65535, 65536, 2 ** 31 - 1, 2 ** 31, 2 ** 32 - 1, 2 ** 32, 2 ** 32 + 1, 2 ** 32 + 16, 2 ** 32 + 64,
             2 ** 63 - 1, 2 ** 63, 2 ** 64 - 1, 2 ** 64, 2 ** 64 + 16, 2 ** 128, 10 ** 30, 10 ** 100]
-    sufs = list("abcdefghijklmnopqrstuvwxyzABCDEFGHIJKLMNOPQRSTUVWXYZ._'") + ["", "e-", "e+", ".e", ".."]
+    sufs = list("abcdefghijklmnopqrstuvwxyzABCDEFGHIJKLMNOPQRSTUVWXYZ._'") + ["", "e-", "e+", ".e", ".."] + list("٣²½１é")
     tails = ["", "0", "1", "9", "a", "z", "A", "Z", "_", "+", "/", ".", ".5", "e1", "q", "r1", " 1"]
     for v in runs:
         for zeros in ("", "0", "000"):
